@@ -49,3 +49,197 @@ def gen_nnconst(T):
             "end GeoVerif.Gen.NNC\n")
     T.write("NNC", body)
     T.digest.append(f"NearestNeighbor: version={version} maxbucket(dist_t=double)={maxbucket}")
+
+
+# =====================================================================================================================
+# gen_apic13: the inventory of the PUBLIC API (every public constructor, member function and static function of every
+# class of include/GeographicLib/*.hpp, with one kind code per parameter), extracted from the clang-14 JSON AST of a
+# translation unit that includes every public header -> Gen/ApiC13.lean.  The hand-written coverage list of
+# Model/ErrCover.lean is checked against it by the obligations `api_covered`, `coverage_not_stale`,
+# `ctor_all_have_domain`, `cover_arities` of Props/C13.lean: adding a public function / overload / parameter to the
+# library without extending the contract breaks an obligation.
+# =====================================================================================================================
+import glob, hashlib, json, os, subprocess
+
+_CLANG = "clang++-14"
+_APIVER = "4"
+
+_VAL = {"real": "r", "Math::real": "r", "double": "r", "float": "r", "long double": "r", "T": "t", "dist_t": "t",
+        "IntT": "t", "ExtT": "t", "int": "i", "unsigned int": "u", "unsigned": "u", "bool": "b", "char": "c", "long long": "l", "size_t": "z", "std::size_t": "z",
+        "unsigned long": "z", "std::string": "s", "std::vector<real>": "v", "std::vector<Math::real>": "v", "std::istream": "f", "std::ostream": "g",
+        "AuxAngle": "a", "Point": "p", "Intersect::Point": "p", "std::pair<real, real>": "p", "std::pair<Math::real, Math::real>": "p"}
+
+
+def _norm_type(t):
+    t = t.replace("GeographicLib::", "")
+    t = re.sub(r"\b(?:[A-Za-z_][A-Za-z_0-9]*::)+real\b", "real", t)        # Geodesic::real, SphericalEngine::real … -> real
+    t = re.sub(r"\bMath::real\b", "real", t)
+    return " ".join(t.split())
+
+
+def _code(t):
+    """one character per parameter: lower case = input, upper case = output (non-const reference / pointer)
+    r real  t template value type  q real array  i int  u unsigned  b bool  c char  l long long  z size_t  s string  v vector<real>
+    k C string  w other vector  f istream  g ostream  a AuxAngle  p Point (pair of reals)  h std::function  e enum  o library object  ? other"""
+    t = _norm_type(t)
+    const = bool(re.search(r"\bconst\b", t))
+    core = re.sub(r"\bconst\b", "", t).strip()
+    arr = bool(re.search(r"\[\d*\]$", core)) or core.endswith("*")
+    ref = core.endswith("&")
+    core = re.sub(r"(\[\d*\]|[&*\s])+$", "", core).strip()
+    if core in _VAL:
+        k = _VAL[core]
+        if arr and k in ("r", "t"):
+            k = "q"
+        if arr and k == "c" and const:
+            return "k"                       # const char*
+        if k in ("f", "g"):
+            return k                         # streams are always non-const references
+        return k.upper() if ((ref or arr) and not const) else k
+    if core.startswith("std::vector<"):
+        return "W" if (ref and not const) else "w"
+    if core.startswith("std::function<"):
+        return "h"
+    if re.fullmatch(r"(?:[A-Za-z_]\w*::)?(flag|component|convertflag|normalization|mask|captype|ordering)", core) :
+        return "E" if (ref and not const) else "e"
+    if re.fullmatch(r"[A-Za-z_][\w:<>, ]*", core):
+        return "O" if ((ref or arr) and not const) else "o"
+    return "?"
+
+
+def _ret_code(ftype):
+    r = _norm_type(ftype.split("(")[0].strip())
+    if r in ("void", ""):
+        return "-"
+    c = _code(r)
+    return c.lower() if c.isalpha() else c
+
+
+def _api_inventory(T):
+    repo = T.REPO
+    hdrs = sorted(glob.glob(os.path.join(repo, "include", "GeographicLib", "*.hpp")))
+    if not hdrs:
+        raise T.Missing("no public headers under include/GeographicLib")
+    h = hashlib.sha256(_APIVER.encode())
+    for p in hdrs:
+        h.update(os.path.basename(p).encode()); h.update(open(p, "rb").read())
+    cachedir = os.path.join(T.VERIF, "_cache", "apic13")
+    os.makedirs(cachedir, exist_ok=True)
+    cp = os.path.join(cachedir, h.hexdigest()[:24] + ".json")
+    if os.path.exists(cp):
+        try:
+            return json.load(open(cp))
+        except Exception:
+            pass
+    T.preprocess("include/GeographicLib/Math.hpp")       # makes sure _cache/inc/GeographicLib/Config.h exists
+    tu = os.path.join(cachedir, "all_%d.cpp" % os.getpid())
+    open(tu, "w").write("".join('#include <GeographicLib/%s>\n' % os.path.basename(p) for p in hdrs))
+    try:
+        r = subprocess.run([_CLANG, "-std=gnu++17", "-fsyntax-only", "-w", "-I" + T.INC, "-I" + os.path.join(repo, "include"),
+                            "-Xclang", "-ast-dump=json", "-Xclang", "-ast-dump-filter=GeographicLib", tu],
+                           stdout=subprocess.PIPE, stderr=subprocess.PIPE, text=True)
+    finally:
+        os.remove(tu)
+    if r.returncode != 0 or not r.stdout.strip():
+        raise T.Missing("clang AST dump of the public headers failed: " + r.stderr[-400:])
+    dec, i, n, roots = json.JSONDecoder(), 0, len(r.stdout), []
+    while i < n:
+        while i < n and r.stdout[i].isspace():
+            i += 1
+        if i >= n:
+            break
+        o, i = dec.raw_decode(r.stdout, i)
+        roots.append(o)
+    inv, seen = [], set()
+
+    def emit(cls, c, templ):
+        if c.get("explicitlyDeleted") or c.get("explicitlyDefaulted") or c.get("isImplicit"):
+            return
+        kind = c["kind"]
+        name = c.get("name") or "?"
+        ftype = c["type"]["qualType"]
+        params = [p for p in c.get("inner", []) if p.get("kind") == "ParmVarDecl"]
+        sig = "".join(_code(p["type"]["qualType"]) for p in params)
+        ndef = sum(1 for p in params if "init" in p)
+        if kind == "CXXConstructorDecl":
+            k, name, ret = 0, cls.split("::")[-1], "-"
+        else:
+            k = 2 if c.get("storageClass") == "static" else 1
+            ret = _ret_code(ftype)
+        key = f"{cls.replace('::', '.')}.{name}/{sig}>{ret}"
+        if key in seen:
+            return                       # redeclaration
+        seen.add(key)
+        inv.append(dict(cls=cls.replace("::", "."), name=name, kind=k, sig=sig, ret=ret, templ=bool(templ), ndef=ndef,
+                        pnames=[p.get("name", "") for p in params], const=bool(re.search(r"\)\s*const\b", ftype))))
+
+    def record(n, q, templ):
+        if not n.get("completeDefinition"):
+            return
+        access = "private" if n.get("tagUsed") == "class" else "public"
+        for c in n.get("inner", []):
+            k = c.get("kind")
+            if k == "AccessSpecDecl":
+                access = c.get("access", access)
+                continue
+            if access != "public":
+                continue
+            if k in ("CXXMethodDecl", "CXXConstructorDecl", "CXXConversionDecl"):
+                emit(q, c, templ)
+            elif k == "FunctionTemplateDecl":
+                for d in c.get("inner", []):
+                    if d.get("kind") in ("CXXMethodDecl", "CXXConstructorDecl"):
+                        emit(q, d, True)
+                        break
+            elif k == "CXXRecordDecl" and c.get("name") and not c.get("isImplicit"):
+                record(c, q + "::" + c["name"], templ)
+            elif k == "ClassTemplateDecl":
+                for d in c.get("inner", []):
+                    if d.get("kind") == "CXXRecordDecl":
+                        record(d, q + "::" + d["name"], True)
+                        break
+
+    def top(n):
+        k = n.get("kind")
+        if k == "NamespaceDecl":
+            for c in n.get("inner", []):
+                top(c)
+        elif k == "CXXRecordDecl" and n.get("name"):
+            record(n, n["name"], False)
+        elif k == "ClassTemplateDecl":
+            for d in n.get("inner", []):
+                if d.get("kind") == "CXXRecordDecl":
+                    record(d, d["name"], True)
+                    break
+    for rt in roots:
+        top(rt)
+    if len(inv) < 300:
+        raise T.Missing(f"API inventory implausibly small ({len(inv)} functions)")
+    inv.sort(key=lambda e: (e["cls"], e["name"], e["sig"], e["ret"]))
+    tmp = cp + ".%d.tmp" % os.getpid()
+    json.dump(inv, open(tmp, "w"))
+    os.replace(tmp, cp)
+    return inv
+
+
+def gen_apic13(T):
+    inv = _api_inventory(T)
+    s = T.lean_str
+    body = ("import GeoVerif.Model.ApiInventory\nnamespace GeoVerif.Gen.ApiC13\nopen GeoVerif.ApiInventory\n\n"
+            "/-- every public constructor (kind 0), member function (1) and static member function (2) of every class declared in\n"
+            "include/GeographicLib/*.hpp: key `Class.name/codes>ret` with its numeric code (UTF-8 bytes as a base-256 number), kind, one code per\n"
+            "parameter (see Model/ApiInventory.lean), code of the return type, member of a class template / function template?; sorted by key -/\n"
+            "def api : List Fn := [\n")
+    def row(e):
+        sig, ret = e["sig"], e["ret"]
+        key = f"{e['cls']}.{e['name']}/{sig}>{ret}"
+        chars = ", ".join("'" + c + "'" for c in sig)
+        return (f"  ⟨⟨{s(key)}, {int.from_bytes(key.encode(), 'big')}⟩, {e['kind']}, [{chars}], '{ret}', {'true' if e['templ'] else 'false'}⟩")
+    inv = sorted(inv, key=lambda e: f"{e['cls']}.{e['name']}/{e['sig']}>{e['ret']}")
+    body += ",\n".join(row(e) for e in inv)
+    body += "]\n\nend GeoVerif.Gen.ApiC13\n"
+    T.write("ApiC13", body)
+    ncls = len({e["cls"] for e in inv})
+    nin = sum(1 for e in inv if re.search(r"[rtqskvwfhap]", e["sig"]))
+    T.digest.append(f"public API inventory (clang AST of include/GeographicLib/*.hpp): {len(inv)} functions of {ncls} classes, {nin} with a floating-point / string / vector / stream input, "
+                    f"{sum(1 for e in inv if e['kind'] == 0)} constructors")
